@@ -7,7 +7,7 @@ from props import c06_extract as T
 
 NSLOT, NOBJ, NVAR, NCALL, NSENT = 10, 4, 4, 4, 4
 LAYOUTS = [(1, 1), (1, 2), (2, 1), (3, 1)]      # replace_program() family: variables of the first / second inherit
-NEFUN = 90
+NEFUN = 92
 # groups that build a cycle while they run (an error injected in the middle legitimately leaves cyclic garbage) or
 # keep a call_out handle in a local (71: the injected error would leave the call_out pending)
 NO_FAULT = (13, 48, 71)
@@ -955,6 +955,9 @@ class C06(Prop):
             "free 3", "drop 1"])
         mk("functionals-bind-lpc", "lpc", ["newobj 0", "newarr 0 2", "efun 89 0 0", "newffun 1 0 1", "efun 89 0 1", "fefun 89 0 0 0", "free 1", "free 0",
                                            "dest 0", "efun 89 0 0", "cleanup", "drop 0"])
+        # mapping composition (m * n, m *= n, m *= m in place) on closed / partially closed / disjoint mappings
+        mk("mapping-composition-lpc", "lpc", ["newarr 0 2", "newmap 1", "mset 1 0 0", "efun 90 0 1", "efun 91 0 1", "efun 90 1 0", "efun 91 1 1",
+                                              "fefun 90 0 1 0", "fefun 91 0 1 0", "free 0", "free 1"])
         mk("errors-lpc", "lpc", ["newarr 0 2", "newmap 1", "newobj 0", "mset 1 0 0", "err 0 1", "efun 10 0 1",
                                  "efun 11 0 1", "err 1 0", "free 0", "free 1", "dest 0", "cleanup", "drop 0"])
         # repaired defects: copy() beyond the nesting limit leaked the partial copy; copy() of a class miscounted arrays
